@@ -169,6 +169,16 @@ def check(run):
         gamma = zero_diag_symmetric(rng, nb if t is None else t.shape[0])
         npos = np.array([[0.5, -0.25, 1.0], [-1.0, 0.75, 0.25]])
         one_case(run, specs, gamma, np.array([[0.1, 0.2, 0.3], [1.5, -1.0, 0.5]]), npos, np.array([1.0, 6.0]), 0.0, t, "zero-diagonal-gamma")
+    # density matrices that are symmetric only up to rounding (transformed to another orbital basis and back), with many
+    # noise-level elements; the "density matrix transformed back" of the property is obtained in exactly this way
+    from checks.common import rounding_noise_symmetric
+    for n in range(3 if quick else 10):
+        specs = random_basis(rng, 2, 2, lmax=1 if quick else 2, exp_hi=20.0, nprim=None)
+        nb = sum(s.size for s in specs)
+        t = random_transform(rng, nb, rect=True) if n % 3 == 2 else None
+        noisy, exact = rounding_noise_symmetric(rng, nb if t is None else t.shape[0], diagonal=(n % 2 == 0))
+        npos = np.array([[0.5, -0.25, 1.0], [-1.0, 0.75, 0.25]])
+        one_case(run, specs, noisy, np.array([[0.1, 0.2, 0.3], [1.5, -1.0, 0.5]]), npos, np.array([1.0, 6.0]), 0.0, t, "gamma symmetric up to rounding")
     representation_cases(run)
     # the witnesses of the repaired defects
     s = ShellSpec(0, [0, 0, 0], [1.0], [1.0])
